@@ -12,6 +12,7 @@ import (
 	"path/filepath"
 	"sort"
 	"strings"
+	"sync"
 
 	"golang.org/x/tools/go/callgraph"
 	"golang.org/x/tools/go/callgraph/cha"
@@ -74,6 +75,48 @@ type Prog struct {
 	refs    map[string][]Ref
 }
 
+// funcNameAlias: an unexported package-level function m(x *T, …) answers to the canonical method name "(*T).m"
+// when the rules name that method and T has no method m — an anchored method that was turned into a plain
+// function taking its former receiver as first parameter (call operands keep their positions in the canonical
+// value of a call: receiver first). Keyed by the function object of the load it belongs to.
+var funcNameAlias sync.Map
+
+func (p *Prog) aliasConvertedMethods(mod string) {
+	anchorWords()
+	for _, pk := range p.Pkgs {
+		scope := pk.Types.Scope()
+		for _, nm := range scope.Names() {
+			fn, ok := scope.Lookup(nm).(*types.Func)
+			if !ok || fn.Exported() {
+				continue
+			}
+			sig := fn.Type().(*types.Signature)
+			if sig.Recv() != nil || sig.Params().Len() == 0 || sig.TypeParams() != nil {
+				continue
+			}
+			pt, ok := sig.Params().At(0).Type().(*types.Pointer)
+			if !ok {
+				continue
+			}
+			named, ok := pt.Elem().(*types.Named)
+			if !ok || named.Obj().Pkg() != pk.Types {
+				continue
+			}
+			if ms := types.NewMethodSet(pt); ms.Lookup(pk.Types, nm) != nil {
+				continue
+			}
+			prefix := shortPkg(pk.PkgPath, mod)
+			cand := "(*" + named.Obj().Name() + ")." + nm
+			if prefix != "" {
+				cand = prefix + "." + cand
+			}
+			if strings.Contains(anchorAllText, cand) {
+				funcNameAlias.Store(fn, cand)
+			}
+		}
+	}
+}
+
 // LoadOptions selects the tree and build configuration.
 type LoadOptions struct {
 	Repo    string
@@ -118,6 +161,9 @@ func FuncName(fn *types.Func, mod string) string {
 		return ""
 	}
 	fn = fn.Origin()
+	if a, ok := funcNameAlias.Load(fn); ok {
+		return a.(string)
+	}
 	sig := fn.Type().(*types.Signature)
 	pkgPrefix := ""
 	if fn.Pkg() != nil {
@@ -242,6 +288,7 @@ func Load(opt LoadOptions) (*Prog, error) {
 		return nil, fmt.Errorf("package %s not among loaded packages", mod)
 	}
 	p.Stats["packages"] = len(p.Pkgs)
+	p.aliasConvertedMethods(mod)
 	for _, pk := range p.Pkgs {
 		for _, f := range pk.Syntax {
 			p.indexFile(pk, f, mod)
